@@ -75,9 +75,9 @@ pub fn drv_c12_worker(term: &Terminator, me: usize) {
 // segment / deque / injector operations (python models over the same abstract pool) and the
 // object graph (`Object::visit_reference_fields` is redirected to `drv_c12_visit_fields`).
 pub struct MarkingTask;
-pub struct Slot;
-pub struct Obj;
-pub struct Addr;
+pub struct Slot(pub usize);
+pub struct Obj(pub usize);
+pub struct Addr(pub usize);
 
 impl MarkingTask {
     #[inline(never)]
